@@ -709,7 +709,26 @@ pub fn capacity_probe(w_pool: &SPool, expect: usize, closed: bool) -> Result<(),
     for i in 0..=expect {
         let opi = with_w(|w| w.op_invoke(CONTROLLER, 9000 + i, Op::Nop));
         let mut fut = Box::pin(w_pool.timeout_get(&t));
-        let r = engine::poll_once(fut.as_mut());
+        // the probe runs on the controller: a get() that blocks on the pool's own lock (a lock
+        // taken twice on one path) cannot be scheduled around and is reported, not a harness error
+        let r = match std::panic::catch_unwind(std::panic::AssertUnwindSafe(|| engine::poll_once(fut.as_mut()))) {
+            Ok(r) => r,
+            Err(p) => {
+                let msg = p
+                    .downcast_ref::<String>()
+                    .cloned()
+                    .or_else(|| p.downcast_ref::<&str>().map(|s| s.to_string()))
+                    .unwrap_or_default();
+                if !msg.contains("controller would block on a lock") {
+                    std::panic::resume_unwind(p);
+                }
+                std::mem::forget(fut);
+                with_w(|w| w.op_return(opi, OpRes::Cancelled));
+                return Err(format!(
+                    "probe: get #{i} on the quiescent pool blocks on a lock nobody else holds (self-deadlock)"
+                ));
+            }
+        };
         drop(fut);
         let res;
         match r {
